@@ -94,6 +94,29 @@ CLAIMED.update({
             "Bracket lists and quoted JSON objects are outside the proved class and only tested."),
 })
 
+CLAIMED.update({
+    "C02": ("PARTIAL. Proved about the workflow-machine step of a task event (wf_task_event_M), for every state: succeeded is "
+            "reported only when nothing is active/paused/canceled/staged/next and the reporting task succeeded or was "
+            "remediated; an unremediated failure fails the workflow from running/pausing/paused/resuming and stays cancel-class "
+            "while canceling; pausing/canceling are left as soon as a settled task event is processed with nothing active "
+            "(facts sweep all 16 statuses x 32 flag combinations of the contextualised name against the generated table). "
+            "Tested, not proved: the link between active task executions and the provider's in-flight set.",
+            "Reference provider protocol; known findings D1, D8, D9, D21, D24."),
+    "C03": ("PARTIAL. Proved: a settled task event processed with nothing active takes a pausing/canceling workflow to rest "
+            "(table sweeps: dormant events are always accepted there and always lead to a resting status); resume of a finished "
+            "paused workflow completes it; what is on offer is exactly the ready staged entries. Tested, not proved: running / "
+            "resuming with nothing in flight always offers something (side-effect-free poll of a restored copy at every "
+            "quiescent point).",
+            "Known findings D1, D8, D9, D21, D24, D25."),
+    "C16": ("PARTIAL. Proved: exact characterisation of merge_dicts (lookup, replace for non-dicts, key order, uniqueness), "
+            "literal values pass through evaluate unchanged in type and value, evaluate is state-pure, the data path links "
+            "input -> contexts[0] -> task context -> offer and publish -> delta for literals, and published deltas contain exactly "
+            "the published names (27 theorems). The part that lives in YAQL/Jinja/ujson is tied by a value-zoo differential on "
+            "the real evaluators and a full conductor data path (also against the model).",
+            "Known candidates recorded in known_findings.json (C16-*): dict-over-dict publish merges, Jinja can mutate the "
+            "context, $__state/{{ __state }} bypass ctx(), dunder names can be published by name."),
+})
+
 NOT_YET = {}
 
 
